@@ -165,7 +165,7 @@ func hashMain(args []string) {
 	o := hx.ParseOpts(args)
 	rep := hx.NewReport("histories of 1..6 calculations on one hasher per algorithm (6 algorithms x {NewHashingAlgorithm, bespoke counting wrapper}); contents 0..48 bytes " +
 		"(thorough: also up to 2^20), random chunking with zero-length reads and readers that hand over their final bytes together with io.EOF, outcome ok / reader error after k bytes / context cancelled after k bytes; " +
-		"file hashing on MemMapFs, OsFs and through the read-only zip (stored, deflated) and tar views. non-trivial = history with >=2 calculations of which at least one succeeds after a failed/cancelled one, or a multi-chunk content; " +
+		"two hashers of one algorithm with overlapping calculations; file hashing on MemMapFs, OsFs and through the read-only zip (stored, deflated) and tar views. non-trivial = history with >=2 calculations of which at least one succeeds after a failed/cancelled one, or a multi-chunk content; " +
 		"distinct = (algorithm, history).")
 	drv, err := hx.StartDriver(o.Driver)
 	if err != nil {
@@ -271,6 +271,40 @@ func hashMain(args []string) {
 					lines = append(lines, "hash "+strings.Join(calcs, ";"))
 					pends = append(pends, pend{algo, results, strings.Join(descs, ";")})
 				}
+			}
+		}
+	}
+	// ---- two hashers of the same algorithm whose calculations overlap -------------------------
+	// (a stream whose Read runs a complete calculation on ANOTHER hasher object: hashers are independent objects)
+	for i := 0; i < n/8+6; i++ {
+		outer := make([]byte, 1+rnd.Intn(200))
+		inner := make([]byte, rnd.Intn(60))
+		for j := range outer {
+			outer[j] = byte(rnd.U64())
+		}
+		for j := range inner {
+			inner[j] = byte(rnd.U64())
+		}
+		cut := rnd.Intn(len(outer) + 1)
+		for _, algo := range hashAlgos {
+			ha, _ := hashing.NewHashingAlgorithm(algo)
+			hb, _ := hashing.NewHashingAlgorithm(algo)
+			var innerGot string
+			var innerErr error
+			nr := &nestedReader{data: outer, cut: cut, between: func() {
+				innerGot, innerErr = hb.Calculate(bytes.NewReader(inner))
+			}}
+			got, err := ha.Calculate(nr)
+			caseTxt := fmt.Sprintf("overlap algo=%s outer=%x cut=%d inner=%x", algo, outer, cut, inner)
+			rep.Eval(caseTxt, true)
+			rep.Hist("two-hashers-overlapping")
+			if err != nil || got != refDigest(algo, outer) {
+				rep.Fail(hx.Failure{Kind: "impl-violates-property", Key: "digest-disturbed-by-another-hasher-object", Case: caseTxt,
+					Expected: refDigest(algo, outer), Observed: fmt.Sprint(got, " ", err), Detail: "a calculation on a second hasher of the same algorithm ran between two reads of this one"})
+			}
+			if innerErr != nil || innerGot != refDigest(algo, inner) {
+				rep.Fail(hx.Failure{Kind: "impl-violates-property", Key: "digest-disturbed-by-another-hasher-object", Case: caseTxt + " [inner]",
+					Expected: refDigest(algo, inner), Observed: fmt.Sprint(innerGot, " ", innerErr)})
 			}
 		}
 	}
@@ -447,4 +481,31 @@ func decBytes(s string) []byte {
 		b.WriteByte(byte(v))
 	}
 	return b.Bytes()
+}
+
+
+// nestedReader delivers data[:cut], then runs `between` once, then delivers the rest
+type nestedReader struct {
+	data    []byte
+	cut     int
+	pos     int
+	done    bool
+	between func()
+}
+
+func (r *nestedReader) Read(p []byte) (int, error) {
+	if r.pos >= r.cut && !r.done {
+		r.done = true
+		r.between()
+	}
+	if r.pos >= len(r.data) {
+		return 0, io.EOF
+	}
+	end := len(r.data)
+	if r.pos < r.cut {
+		end = r.cut
+	}
+	n := copy(p, r.data[r.pos:end])
+	r.pos += n
+	return n, nil
 }
